@@ -73,6 +73,39 @@ def all_literals(stm):
     return [n for n in walk(stm) if n.ast_type == ASTType.Literal]
 
 
+def _antitone_domain_rule(text, rec):
+    try:
+        import semcheck
+        from ngo.dependency import DomainPredicates
+        from ngo.normalize import preprocess
+        from ngo.utils.ast import Predicate
+        from ngo.utils.globals import UniqueNames
+        prg = semcheck.parse(text)
+        inputs, _ = semcheck.resolve_declarations(prg, text, rec.get("inp", "auto"), rec.get("outp", "auto"))
+        prg = preprocess(prg)
+        dp = DomainPredicates(UniqueNames(prg, inputs), prg)
+
+        def dynamic(node):
+            for n in walk(node):
+                if n.ast_type == ASTType.SymbolicAtom and n.symbol.ast_type == ASTType.Function:
+                    name = n.symbol.name
+                    orig = [k for k, v in dp.domains.items() if v.name == name and v.arity == len(n.symbol.arguments)]
+                    if any(not dp.is_static(k) for k in orig) or not dp.is_static(Predicate(name, len(n.symbol.arguments))):
+                        return True
+            return False
+        for rules in dp.domain_rules.values():
+            for _, condition in rules:
+                for c in condition:
+                    if c.ast_type == ASTType.Literal and c.sign == Sign.Negation and dynamic(c):
+                        return True
+                    if c.ast_type == ASTType.ConditionalLiteral and (
+                            any(dynamic(x) for x in c.condition) or (c.literal.sign == Sign.Negation and dynamic(c.literal))):
+                        return True
+    except Exception:  # noqa - attribution must never crash a check; an unattributed failure stays a violation
+        return False
+    return False
+
+
 def falsified(text, flags, rec=None):
     prg = corpus.parses(text) or []
     keys = set()
@@ -245,6 +278,12 @@ def falsified(text, flags, rec=None):
         for line in rec["result"].split("\n"):
             if line.startswith("__dom_") and ":-" in line and "not __dom_" in line.split(":-", 1)[1]:
                 keys.add("Hyp_dom_positive")
+        # later passes (projection, a domain that collapses to a static predicate) can hide the textual shape, so
+        # the call site is also identified with ngo's own DomainPredicates on the normalised source: some stored
+        # domain rule has an antitone occurrence (a negated literal, the condition of a conditional literal) of a
+        # predicate that is not static, and the result does use domain predicates
+        if "Hyp_dom_positive" not in keys and "__dom_" in rec["result"] and _antitone_domain_rule(text, rec):
+            keys.add("Hyp_dom_positive")
     # D33 (instance dependent): the result applies arithmetic to a non-integer where the source did not
     if rec is not None and rec.get("result_undefined") and "math" in on:
         keys.add("Hyp_integers_only")
